@@ -23,6 +23,10 @@ def scratch():
         base = os.environ.get('TMPDIR') or '/tmp'
         _scratch = tempfile.mkdtemp(prefix='vf-', dir=base)
         atexit.register(shutil.rmtree, _scratch, True)
+        # everything this run and its children create as "temporary" (multiprocessing's pymp-* directories of children that
+        # are killed, TLC's java.io.tmpdir, tempfile users in the drivers) lands inside and goes away with it
+        os.environ['TMPDIR'] = _scratch
+        tempfile.tempdir = _scratch
     return _scratch
 
 
